@@ -23,6 +23,13 @@ func (h Handle) Validate(needCollection bool) error {
 		return fmt.Errorf("missing database in handle")
 	}
 
+	// check database name: a stored namespace name is split at its first
+	// dot, so a dot in the database name would move part of it into the
+	// collection name on reload
+	if strings.Contains(h[0], ".") {
+		return fmt.Errorf("invalid database name %q", h[0])
+	}
+
 	// check collection
 	if needCollection && h[1] == "" {
 		return fmt.Errorf("missing collection in handle")
